@@ -49,6 +49,9 @@ def cases(tier, seed):
     for kind in ("3d", "4d", "bscale_float", "bscale_int16", "compressed"):
         for cores in (1, 3):
             yield "kinds", dict(kind=kind, cores=cores)
+    # histories: ONE input path rewritten with another image (other scaling keywords, other shape) between calls of one process
+    for first in range(len(HIST_FILES)):
+        yield "history", dict(first=first)
     for real in range(6 if tier == "quick" else 24):
         yield "stationary", dict(realisation=real)
     for k in range(4 if tier == "quick" else 16):
@@ -297,6 +300,76 @@ def ev_kinds(case, ctx):
                 what, cfg, np.nanmax(np.abs(r1[0].astype(float) - r0[0])), np.nanmax(np.abs(r1[1].astype(float) - r0[1]))), "kinds_diff|" + cfg)
 
 
+HIST_FILES = ["plain", "bscale_float", "bscale_int16", "other_shape", "cube"]
+
+
+def _hist_write(kind, path):
+    """(re)write `path`; returns the equivalent plain 2-D physical image and the extra keyword arguments of the call"""
+    base = make("gradient", (40, 32))
+    if kind == "plain":
+        write(path, base)
+        return base, {}
+    if kind == "bscale_float":
+        write(path, base.astype(np.float32))
+        with fits.open(path, mode="update", do_not_scale_image_data=True) as hl:
+            hl[0].header["BSCALE"] = 0.5
+        return base.astype(np.float32) * 0.5, {}
+    if kind == "bscale_int16":
+        raw = np.asarray(np.round(base * 64), dtype=np.int16)
+        fits.PrimaryHDU(data=raw).writeto(path, overwrite=True)
+        with fits.open(path, mode="update", do_not_scale_image_data=True) as hl:
+            hl[0].header["BSCALE"] = 0.25
+            hl[0].header["CDELT1"] = -0.01
+            hl[0].header["CDELT2"] = 0.01
+        return raw * 0.25, {}
+    if kind == "other_shape":
+        other = make("gradient", (28, 44))
+        write(path, other)
+        return other, {}
+    cube = np.stack([base + 8 * k for k in range(3)])
+    write(path, cube)
+    return cube[2], dict(cube_index=2)
+
+
+def ev_history(case, ctx):
+    d = os.environ["VERIF_SCRATCH"]
+    grid, box = (4, 4), (12, 12)
+    f = os.path.join(d, "hist.fits")
+    fref = os.path.join(d, "hist_ref.fits")
+    a = case["first"]
+    refs = {}
+    for b in range(len(HIST_FILES)):
+        if b == a:
+            continue
+        for step, k in enumerate((a, b, a)):
+            kind = HIST_FILES[k]
+            cfg = "history:%s_then_%s,step=%d" % (HIST_FILES[a], HIST_FILES[b], step)
+            ctx.count("history")
+            ctx.nontrivial(cfg)
+            phys, kw = _hist_write(kind, f)
+            st, r = bane(f, grid, box, 2, None, True, **kw)
+            if kind not in refs:
+                write(fref, phys)
+                refs[kind] = bane(fref, grid, box, 2, None, True)
+            st0, r0 = refs[kind]
+            if st0 != "ok" or r0 is None:
+                ctx.violation("reference run failed (%s): %s" % (cfg, st0), "history_ref|" + cfg)
+                continue
+            if st != "ok" or r is None:
+                ctx.violation("BANE failed on a rewritten input path (%s): %s %r" % (cfg, st, r), "history_raise|" + cfg)
+                continue
+            okb, _ = close32(r[0], r0[0], 1.0)
+            okr, _ = close32(r[1], r0[1], 1.0)
+            ctx.outcome("history:%s" % ("same" if okb and okr else "differs"))
+            if not (okb and okr):
+                ctx.violation("input path rewritten with a %s image: the maps differ from those of the same image under a fresh name "
+                              "(shape %r vs %r, median background %.6g vs %.6g) (%s)" % (
+                                  kind, np.shape(r[0]), np.shape(r0[0]), float(np.nanmedian(r[0])), float(np.nanmedian(r0[0])), cfg), "history|" + cfg)
+    for p_ in (f, fref):
+        if os.path.exists(p_):
+            os.remove(p_)
+
+
 def ev_stationary(case, ctx):
     k = case["realisation"]
     d = os.environ["VERIF_SCRATCH"]
@@ -433,4 +506,4 @@ def ev_cli(case, ctx):
 def evaluate(clause, case, ctx):
     if clause == "cli":
         return ev_cli(case, ctx)
-    dict(contract=ev_contract, kinds=ev_kinds, stationary=ev_stationary, real_mp=ev_real_mp)[clause](case, ctx)
+    dict(contract=ev_contract, kinds=ev_kinds, stationary=ev_stationary, real_mp=ev_real_mp, history=ev_history)[clause](case, ctx)
